@@ -229,6 +229,9 @@ func (t *textAn) termOf(v ssa.Value, depth int) []tPiece {
 				P.PinnedAll(pinMap{callee: x}, func() { out = t.termOf(ret.Results[0], depth+1) })
 				return out
 			}
+			if out := t.padHelperWithEmptyReturns(callee, x, depth); out != nil {
+				return out
+			}
 		}
 	}
 	return []tPiece{{kind: "val", v: v}}
@@ -1322,4 +1325,60 @@ func (c *Ctx) checkFormatText(fn *ssa.Function) (okMsg, okURL, urlAlways bool) {
 	flat(pieces, false)
 	okMsg = strings.Contains(tmpl.String(), "[\x00CODE\x00] \x00MSG\x00")
 	return
+}
+
+// padHelperWithEmptyReturns: a helper that returns the padding of the caret line and, besides the return of what its
+// padding loop built, has early returns of the empty string (`if displayColumn <= 1 { return "" }`). Such a return
+// is the padding too exactly when the padding is empty there: displayColumn-1 <= 0 must follow from the branch
+// conditions that dominate it. Anything else (another constant, an early return that is not provably the
+// zero-length case) is not followed, and the caller's rule fails closed.
+func (t *textAn) padHelperWithEmptyReturns(callee *ssa.Function, call *ssa.Call, depth int) []tPiece {
+	if t.lc == nil || t.disp == nil {
+		return nil
+	}
+	dc, ok := t.lc.vars[ssa.Value(t.disp)]
+	if !ok {
+		return nil
+	}
+	var full *ssa.Return
+	var empties []*ssa.Return
+	bad := false
+	allInstrs(callee, func(_ *ssa.BasicBlock, ins ssa.Instruction) {
+		r, ok := ins.(*ssa.Return)
+		if !ok {
+			return
+		}
+		if len(r.Results) != 1 {
+			bad = true
+			return
+		}
+		if k, isConst := r.Results[0].(*ssa.Const); isConst && isStringType(k.Type()) && constString(k) == "" {
+			empties = append(empties, r)
+			return
+		}
+		if full != nil {
+			bad = true
+		}
+		full = r
+	})
+	if bad || full == nil || len(empties) == 0 {
+		return nil
+	}
+	var out []tPiece
+	t.P.PinnedAll(pinMap{callee: call}, func() { out = t.termOf(full.Results[0], depth+1) })
+	if len(out) != 1 || out[0].kind != "pad" {
+		return nil
+	}
+	want := dc.add(linConst(1), -1)
+	for _, r := range empties {
+		lc := t.lc
+		sub := &linCtx{c: lc.c, P: lc.P, vars: lc.vars, ids: lc.ids, trust: lc.trust, depth: lc.depth, bound: lc.bound, inst: lc.inst,
+			nFresh: lc.nFresh + 500000, defSink: lc.def()}
+		sub.facts = append(sub.facts, lc.def().facts...)
+		sub.blockFacts(r.Block())
+		if !sub.prove(geq(linConst(0), want)) {
+			return nil
+		}
+	}
+	return out
 }
